@@ -38,8 +38,9 @@ CONSTANT NChunks
 ASSUME TLCSet(7, ndJsonDeserialize(IOEnv.TRACE))
 Recs == TLCGet(7)
 
-OpConstant == 0  OpPop == 1  OpJump == 15  OpJumpIfFalse == 16  OpJumpIfFalseNoPop == 17
-OpArray == 22  OpMap == 23  OpCall == 26  OpReturnValue == 27  OpReturn == 28  OpClosure == 34
+\* Opcodes are identified by the names the real code gives them (rec.opnames, rec.opc: measured with the
+\* widths), not by fixed numbers: a renumbering is not a change of the format.
+Nm(rec, op) == IF op < Len(rec.opnames) THEN rec.opnames[op + 1] ELSE "?"
 
 AssocGet(al, k) == FoldLeft(LAMBDA acc, p : IF p[1] = k THEN p[2] ELSE acc, -1, al)
 AssocSet(al, k, v) == Append(al, <<k, v>>)
@@ -52,20 +53,23 @@ IsMarker(rec, code, ip, W) ==
 MarkerKey(rec, code, ip, W) == rec.consts[Operands(W, code, ip)[1] + 1].v
 
 \* positions the instruction at ip may lead to within its own frame
-NextIps(W, code, ip, op) ==
-  CASE op = OpJump -> {Operands(W, code, ip)[1]}
-    [] op \in {OpJumpIfFalse, OpJumpIfFalseNoPop} -> {Operands(W, code, ip)[1], ip + InstrLen(W, op)}
-    [] op \in {OpReturn, OpReturnValue} -> {}
+NextIps(rec, W, code, ip, op) ==
+  CASE Nm(rec, op) = "Jump" -> {Operands(W, code, ip)[1]}
+    [] Nm(rec, op) \in {"JumpIfFalse", "JumpIfFalseNoPop"} -> {Operands(W, code, ip)[1], ip + InstrLen(W, op)}
+    [] Nm(rec, op) \in {"Return", "ReturnValue"} -> {}
     [] OTHER -> {ip + InstrLen(W, op)}
 
 \* required effect on sp of a non-control instruction (DESIGN.md appendix B), or 99 = not applicable
-Effect(W, code, ip, op) ==
-  CASE op \in {0, 7, 8, 18, 20, 30, 32, 33, 35, 37, 44} -> 1
-    [] op \in {13, 14, 38, 15, 17, 21, 31, 36, 45, 47} -> 0
-    [] op \in {1, 2, 3, 4, 5, 6, 9, 10, 11, 12, 39, 40, 41, 42, 43, 16, 19, 29, 24, 46} -> -1
-    [] op = 25 -> -2
-    [] op \in {OpArray, OpMap} -> 1 - Operands(W, code, ip)[1]
-    [] op = OpClosure -> 1 - Operands(W, code, ip)[2]
+Effect(rec, W, code, ip, op) ==
+  LET nm == Nm(rec, op) IN
+  CASE nm \in {"Constant", "True", "False", "Null", "GetGlobal", "GetLocal", "GetBuiltinFn", "GetBuiltinVar", "GetFree",
+               "CurrClosure", "Dup"} -> 1
+    [] nm \in {"Minus", "Bang", "Not", "Jump", "JumpIfFalseNoPop", "SetGlobal", "SetLocal", "SetFree", "GetProp", "Dollar"} -> 0
+    [] nm \in {"Pop", "Add", "Sub", "Mul", "Div", "Mod", "Equal", "NotEqual", "Greater", "GreaterEq", "And", "Or", "Xor",
+               "ShiftLeft", "ShiftRight", "JumpIfFalse", "DefineGlobal", "DefineLocal", "GetIndex", "SetProp"} -> -1
+    [] nm = "SetIndex" -> -2
+    [] nm \in {"Array", "Map"} -> 1 - Operands(W, code, ip)[1]
+    [] nm = "Closure" -> 1 - Operands(W, code, ip)[2]
     [] OTHER -> 99
 
 Frame(func) == [func |-> func, allowed |-> {0}, marks |-> <<>>, heads |-> <<>>]
@@ -80,11 +84,11 @@ StepEv(rec, W, st, i) ==
       prev == st.prev
       \* frame bookkeeping: call, return or same frame
       st1 == IF fi = depth + 1 THEN
-               (IF full /\ (prev[4] # OpCall \/ ip # 0)
+               (IF full /\ (Nm(rec, prev[4]) # "Call" \/ ip # 0)
                 THEN BadIp([st EXCEPT !.frames = Append(st.frames, Frame(func))], "callee entered without Call at ip 0", i)
                 ELSE [st EXCEPT !.frames = Append(st.frames, Frame(func))])
              ELSE IF fi < depth /\ fi >= 1 THEN
-               (IF full /\ prev[4] \notin {OpReturn, OpReturnValue}
+               (IF full /\ Nm(rec, prev[4]) \notin {"Return", "ReturnValue"}
                 THEN BadIp([st EXCEPT !.frames = SubSeq(st.frames, 1, fi)], "frame left without a return", i)
                 ELSE [st EXCEPT !.frames = SubSeq(st.frames, 1, fi)])
              ELSE IF fi = depth THEN st
@@ -96,14 +100,14 @@ StepEv(rec, W, st, i) ==
              ELSE IF fr.func # func THEN BadIp(st1, "frame executes another function", i)
              ELSE IF ip \notin fr.allowed THEN BadIp(st1, "ip is not where the previous instruction leads", i)
              ELSE IF ip + 1 > Len(code) \/ code[ip + 1] # op THEN BadIp(st1, "traced opcode is not the byte at ip", i)
-             ELSE IF op >= NOps THEN BadIp(st1, "undefined opcode executed", i)
+             ELSE IF op >= Len(W) THEN BadIp(st1, "undefined opcode executed", i)
              ELSE st1
       \* sp effect (localisation only)
-      drifted == /\ full /\ i > 1 /\ prev[1] = fi /\ prev[2] = func /\ prev[4] < NOps
-                 /\ Effect(W, code, prev[3], prev[4]) # 99
-                 /\ sp # prev[5] + Effect(W, code, prev[3], prev[4])
+      drifted == /\ full /\ i > 1 /\ prev[1] = fi /\ prev[2] = func /\ prev[4] < Len(W)
+                 /\ Effect(rec, W, code, prev[3], prev[4]) # 99
+                 /\ sp # prev[5] + Effect(rec, W, code, prev[3], prev[4])
       \* C07 M: markers
-      ismark == op = OpConstant /\ ip + InstrLen(W, op) <= Len(code) /\ IsMarker(rec, code, ip, W)
+      ismark == Nm(rec, op) = "Constant" /\ ip + InstrLen(W, op) <= Len(code) /\ IsMarker(rec, code, ip, W)
       key == MarkerKey(rec, code, ip, W)
       seen == AssocGet(fr.marks, key)
       st3 == IF ~ismark THEN st2
@@ -112,13 +116,13 @@ StepEv(rec, W, st, i) ==
              ELSE st2
       \* C07 J: backward jumps
       tgt == Operands(W, code, ip)[1]
-      isback == op = OpJump /\ ip + InstrLen(W, op) <= Len(code) /\ tgt <= ip
+      isback == Nm(rec, op) = "Jump" /\ ip + InstrLen(W, op) <= Len(code) /\ tgt <= ip
       hseen == AssocGet(st3.frames[fi].heads, tgt)
       st4 == IF ~isback THEN st3
              ELSE IF hseen = -1 THEN [st3 EXCEPT !.frames[fi].heads = AssocSet(st3.frames[fi].heads, tgt, sp)]
              ELSE IF hseen # sp THEN Bad(st3, "loop head reached at two stack heights", i)
              ELSE st3
-      nexts == IF op < NOps /\ ip + InstrLen(W, op) <= Len(code) THEN NextIps(W, code, ip, op) ELSE {}
+      nexts == IF op < Len(W) /\ ip + InstrLen(W, op) <= Len(code) THEN NextIps(rec, W, code, ip, op) ELSE {}
   IN [st4 EXCEPT !.frames[fi].allowed = nexts, !.prev = e, !.drift = IF drifted THEN st4.drift + 1 ELSE st4.drift,
                  !.nmark = IF ismark THEN st4.nmark + 1 ELSE st4.nmark, !.nback = IF isback THEN st4.nback + 1 ELSE st4.nback]
 
